@@ -10,9 +10,9 @@ OUT = os.path.join(os.path.dirname(os.path.dirname(os.path.abspath(__file__))), 
 
 M = [
  # name, checks, file, old, new
- ('c01_skip_last_later_bound', 'C01', 'nautilus/sampler.py',
+ ('c01_skip_next_bound', 'C01', 'nautilus/sampler.py',
   "                for bound in self.bounds[index:][1:]:\n",
-  "                for bound in self.bounds[index:][1:-1] if index == 0 else self.bounds[index:][1:]:\n"),
+  "                for bound in self.bounds[index:][2:]:\n"),
  ('c01_transfer_keeps_points', 'C01 C03', 'nautilus/sampler.py',
   "                self.points[shell] = self.points[shell][~in_bound]\n",
   "                self.points[shell] = self.points[shell][~in_bound | (np.arange(len(in_bound)) == 0)]\n                in_bound = in_bound & (np.arange(len(in_bound)) != 0)\n"),
@@ -31,7 +31,7 @@ M = [
  ('c05_rng_not_in_update', 'C05', 'nautilus/sampler.py',
   "        rng_state = self.rng.bit_generator.state\n        group.attrs['rng_state'] = str(rng_state['state']['state'])\n        group.attrs['rng_inc'] = str(rng_state['state']['inc'])\n        group.attrs['rng_has_uint32'] = rng_state['has_uint32']\n        group.attrs['rng_uinteger'] = rng_state['uinteger']\n\n        fstream.close()\n        os.replace(filepath_tmp, filepath)\n",
   "        rng_state = self.rng.bit_generator.state\n        group.attrs['rng_state'] = str(rng_state['state']['state'])\n        group.attrs['rng_inc'] = str(rng_state['state']['inc'])\n\n        fstream.close()\n        os.replace(filepath_tmp, filepath)\n", 'last'),
- ('c05_bound_cache_not_updated', 'C05', 'nautilus/bounds/nautilus.py',
+ ('c05_bound_cache_not_updated', 'C05 C09', 'nautilus/bounds/nautilus.py',
   "        self.outer_bound.update(group['outer_bound'])\n",
   "        pass\n"),
  ('c05_n_update_iter_not_updated', 'C05', 'nautilus/sampler.py',
@@ -54,13 +54,13 @@ M = [
   "                    pass\n"),
  ('c09_scale_not_restored', 'C09', 'nautilus/neural.py',
   "        emulator.scale = np.array(group['scale'])\n",
-  "        emulator.scale = np.array(group['scale']) * (1 + 1e-9)\n"),
+  "        emulator.scale = np.ones_like(np.array(group['scale']))\n"),
  ('c09_union_cache_dropped', 'C09 C05', 'nautilus/bounds/union.py',
   "        bound.points = np.array(group['points'])\n\n        return bound\n",
   "        bound.points = np.array(group['points'])[:0]\n\n        return bound\n"),
- ('c10_counter_by_batch', 'C10', 'nautilus/sampler.py',
+ ('c10_counter_distinct_values', 'C10', 'nautilus/sampler.py',
   "        self.n_like += len(log_l)\n",
-  "        self.n_like += self.n_batch if len(self.bounds) > 1 else len(log_l)\n"),
+  "        self.n_like += len(np.unique(log_l))\n"),
  ('c10_guard_le', 'C10', 'nautilus/sampler.py',
   "        while ((self.n_like < n_like_max) and (time() - t_start < timeout) and\n",
   "        while ((self.n_like <= n_like_max) and (time() - t_start < timeout) and\n"),
